@@ -485,6 +485,29 @@ def check_alloc(ctx, prog, tree, f, r, tree_fns):
         # linking: stored into root here, or returned and linked by every caller under the recorded parent
         linked_here = any(strip(st.root).kind == 'param' and st.fields() == ('root',) and strip(st.value) is c for st in b.stores)
         returned = any(strip(rv) is c for rv in b.ret_val.values())
+        if not linked_here:
+            # linked in place as a child: on every path after the allocation one of the stores node(P).left|right := fresh,
+            # P being the node recorded as the fresh slot's parent
+            from summaries import node_writes
+            parent_vals = [strip(vv) for (flds, vd, site, vv) in wr if flds == ('parent',) and vv is not None]
+            link_sites = []
+            for (tgt, flds, vd, site, vv) in node_writes(prog, f):
+                if flds in (('left',), ('right',)) and vv is not None and strip(vv) is c:
+                    tv = tgt[1] if tgt[0] == 'val' else None
+                    under = any((tv is not None and tv is pv) or (tgt[0] == 'param' and pv.kind == 'param' and pv.args[0] == tgt[1]) for pv in parent_vals)
+                    if under:
+                        link_sites.append(site)
+            if link_sites:
+                blocks = {x.point[0] for x in link_sites}
+                cb0 = c.point[0]
+                covered = True
+                for ret in b.cfg.returns:
+                    if ret in blocks or cb0 in blocks:
+                        continue
+                    if ret == cb0 or b.cfg.paths_avoiding(cb0, ret, blocks):
+                        covered = False
+                if covered:
+                    linked_here = True
         if not linked_here and not returned:
             problems.append('the fresh slot is neither made the root nor returned for linking (slot lost)')
         if returned:
@@ -499,10 +522,17 @@ def check_alloc(ctx, prog, tree, f, r, tree_fns):
                 cb = caller.body
                 ok = False
                 from summaries import node_writes
+                # a call site that passes no parent (EMPTY_REF) makes the fresh slot the root
+                if parent_src is not None and parent_src.kind == 'param':
+                    k0 = parent_src.args[0]
+                    pa = strip(call.args[k0 - 1]) if k0 - 1 < len(call.args) else None
+                    if pa is not None and prog.is_empty_ref(pa):
+                        for st in cb.stores:
+                            if strip(st.root).kind == 'param' and st.fields() == ('root',) and strip(st.value) is call and on_every_path_after(cb, call, st):
+                                ok = True
+                link_blocks = set()
                 for (tgt, flds, vd, site, vv) in node_writes(prog, caller):
                     if flds not in (('left',), ('right',)) or vv is None or strip(vv) is not call:
-                        continue
-                    if not on_every_path_after(cb, call, site):
                         continue
                     # under the node recorded as parent
                     if parent_src is not None and parent_src.kind == 'param':
@@ -510,14 +540,25 @@ def check_alloc(ctx, prog, tree, f, r, tree_fns):
                         parent_arg = strip(call.args[k - 1]) if k - 1 < len(call.args) else None
                         tv = tgt[1] if tgt[0] == 'val' else None
                         if parent_arg is not None and ((tv is not None and tv is parent_arg) or (tgt[0] == 'param' and parent_arg.kind == 'param' and parent_arg.args[0] == tgt[1])):
-                            ok = True
+                            if on_every_path_after(cb, call, site):
+                                ok = True
+                            elif site.point[0] != call.point[0]:
+                                link_blocks.add(site.point[0])
+                if not ok and link_blocks:
+                    # the link is written in one of several branches (left or right): together they must cover every path
+                    ok = True
+                    for ret in cb.cfg.returns:
+                        if ret in link_blocks:
+                            continue
+                        if ret == call.point[0] or cb.cfg.paths_avoiding(call.point[0], ret, link_blocks):
+                            ok = False
                 if not ok:
                     problems.append('caller %s does not link the fresh slot as a child of the node recorded as its parent on every path' % caller.name)
         # who may allocate: the linking inserts only
         if problems:
             ctx.add('POOL', f, 'alloc-init-link', 'violation', '; '.join(problems), PROPS_POOL, line)
         else:
-            ctx.add('POOL', f, 'alloc-init-link', 'ok', 'fresh slot fully initialised (%s) and linked (%s)' % (sorted(written), 'root' if linked_here else 'child link of its recorded parent in every caller'), PROPS_POOL, line)
+            ctx.add('POOL', f, 'alloc-init-link', 'ok', 'fresh slot fully initialised (%s) and linked (%s)' % (sorted(written), 'root, or child link of its recorded parent, in place' if linked_here else 'child link of its recorded parent in every caller'), PROPS_POOL, line)
 
 
 def derives_from_val(v, target):
